@@ -61,3 +61,34 @@ Proof. exact locked_iff_open_query. Qed.
 Print Assumptions C09_lock_history.
 Print Assumptions C09_locked_iff_query_open.
 Print Assumptions C09_locked_rejects.
+
+(** ** The lock code of /repo itself (ecs/util.go lockMask, ecs/pool.go bitPool), as
+    translated into [Gen/GoLocks.v]: on every sequence of Lock / Unlock / IsLocked / Reset
+    calls it returns what the model's lock state returns, panics included (bit
+    exhaustion, unbalanced unlock). *)
+From Arche Require Import Pure.GoRt Gen.GoLocks Proofs.LockTie.
+Local Open Scope nat_scope.
+Theorem C09_code_lock : forall g l held frees,
+  lock_rel g l -> lock_inv 256 l held frees ->
+  match locks_lock 256 l with
+  | Some (l', b) => exists g', lockMask_Lock g = Ret (g', N.of_nat b) /\ lock_rel g' l'
+  | None => lockMask_Lock g = Panicked
+  end.
+Proof. exact Lock_tie. Qed.
+Theorem C09_code_unlock : forall g l held frees b,
+  lock_rel g l -> lock_inv 256 l held frees -> b < 256 ->
+  match locks_unlock l b with
+  | Some l' => exists g', lockMask_Unlock g (N.of_nat b) = Ret g' /\ lock_rel g' l'
+  | None => lockMask_Unlock g (N.of_nat b) = Panicked
+  end.
+Proof. exact Unlock_tie. Qed.
+Theorem C09_code_history : forall ops g l held frees,
+  lock_rel g l -> lock_inv 256 l held frees -> Forall lop_ok ops ->
+  match ml_run l ops with
+  | Ret (l', outs) => exists g', gl_run g ops = Ret (g', map lconv outs) /\ lock_rel g' l'
+  | _ => gl_run g ops = Panicked
+  end.
+Proof. exact lock_code_history. Qed.
+Example C09_code_initial : lock_rel zero_lockMask (locks_init 256).
+Proof. exact zero_lock_rel. Qed.
+Print Assumptions C09_code_history.
